@@ -14,8 +14,9 @@ namespace PebblesVerif
     interleaving) — but `q` is declared `[T]` (`FlatList.QL`: the field's type is
     `.list (.named T)`) and the data's root value for `q` is a LIST of references to entities
     `es` of type `T`. No bound on the number of fields, on the length `k` of the list (`k = 0`
-    allowed), on the data; the SAME entity may occur at several positions. Ids are free of `#`
-    (cf. `C01_point_hash_breaks`) and non-empty; every reference resolves (cf. the open finding
+    allowed), on the data; the SAME entity may occur at several positions. Ids are arbitrary non-empty
+    strings (`#`, the path separator, may occur in them: the point is cut at the FIRST `#`, cf.
+    `C01_point_hash_in_id`); every reference resolves (cf. the open finding
     `C01-null-in-object-list`: a `null` element fails the whole request). Every service answers
     its sub-requests as the reference evaluator does over its OWN schema.
 
@@ -34,7 +35,7 @@ namespace PebblesVerif
 theorem C01_flat_list_one_hop {c : PCtx} {A B T q : String} {fs : List Flat.FieldSpec} (h : Flat.Fam c A B T q fs)
     (svcs : List Exec.Svc) (SA SB : Schema) (D : Spec.Data) (es : List Spec.Entity) (rs : List (List (String × J)))
     (hq1 : '#' ∉ q.toList) (hq2 : ':' ∉ q.toList) (hqne : q ≠ "")
-    (hi : ∀ e ∈ es, '#' ∉ e.id.toList ∧ e.id ≠ "")
+    (hi : ∀ e ∈ es, e.id ≠ "")
     (hnne : ∀ n ∈ Flat.namesOf fs, n ≠ "")
     (hsA : svcs.find? (·.url == A) = some ⟨A, SA⟩) (hsB : svcs.find? (·.url == B) = some ⟨B, SB⟩)
     (hSB : ∃ td, SB.type? T = some td ∧ td.kind = .object)
@@ -58,7 +59,7 @@ theorem C01_flat_list_one_hop {c : PCtx} {A B T q : String} {fs : List Flat.Fiel
 theorem C01_flat_list_one_batch {c : PCtx} {A B T q : String} {fs : List Flat.FieldSpec} (h : Flat.Fam c A B T q fs)
     (svcs : List Exec.Svc) (SA SB : Schema) (D : Spec.Data) (es : List Spec.Entity) (rs : List (List (String × J)))
     (hq1 : '#' ∉ q.toList) (hq2 : ':' ∉ q.toList) (hqne : q ≠ "")
-    (hi : ∀ e ∈ es, '#' ∉ e.id.toList ∧ e.id ≠ "")
+    (hi : ∀ e ∈ es, e.id ≠ "")
     (hnne : ∀ n ∈ Flat.namesOf fs, n ≠ "")
     (hsA : svcs.find? (·.url == A) = some ⟨A, SA⟩) (hsB : svcs.find? (·.url == B) = some ⟨B, SB⟩)
     (hSB : ∃ td, SB.type? T = some td ∧ td.kind = .object)
@@ -91,7 +92,7 @@ theorem C01_flat_list_one_batch {c : PCtx} {A B T q : String} {fs : List Flat.Fi
 theorem C01_flat_list_no_batch {c : PCtx} {A B T q : String} {fs : List Flat.FieldSpec} (h : Flat.Fam c A B T q fs)
     (svcs : List Exec.Svc) (SA SB : Schema) (D : Spec.Data) (es : List Spec.Entity) (rs : List (List (String × J)))
     (hq1 : '#' ∉ q.toList) (hq2 : ':' ∉ q.toList) (hqne : q ≠ "")
-    (hi : ∀ e ∈ es, '#' ∉ e.id.toList ∧ e.id ≠ "")
+    (hi : ∀ e ∈ es, e.id ≠ "")
     (hnne : ∀ n ∈ Flat.namesOf fs, n ≠ "")
     (hsA : svcs.find? (·.url == A) = some ⟨A, SA⟩) (hsB : svcs.find? (·.url == B) = some ⟨B, SB⟩)
     (hSB : ∃ td, SB.type? T = some td ∧ td.kind = .object)
